@@ -4,6 +4,7 @@ patch=$1; shift
 cd /repo || exit 2
 git apply --check "$patch" || { echo "patch does not apply"; exit 2; }
 git apply "$patch"
-for p in "$@"; do (cd /verif && ./check $p 2>&1 | grep -v "^WARNING conda" | tail -4; echo "  -> exit=${PIPESTATUS[0]}"); done
+mkdir -p /verif/build/mutant_evidence
+for p in "$@"; do (cd /verif && VERIF_EVIDENCE_DIR=/verif/build/mutant_evidence ./check $p 2>&1 | grep -v "^WARNING conda" | tail -4; echo "  -> exit=${PIPESTATUS[0]}"); done
 git -C /repo checkout -- .
 git -C /repo status --short | grep -v parser_log
